@@ -271,7 +271,6 @@ type dnsPipe struct {
 	lists, evals, changed, nontrivial, merged, deduped, geo *atomic.Int64
 	byRule, negMergeable                                    *atomic.Int64
 	outcomes                                                hist
-	samples                                                 atomic.Int64
 }
 
 func newDNSPipe(r *vlib.Run, name string) *dnsPipe {
@@ -700,7 +699,7 @@ func (d *dnsLeg) one(ord, i int, reqIdx, respIdx []int, viaText bool, withRouter
 		if rt != nil {
 			d.classify(d.pRouter, rl, written, lowered, int(nRouter), nRouterRule)
 		}
-		if changed && i%401 == 7 && d.pReq.samples.Add(1) <= 2 {
+		if _ = changed; (ord == 1 && i == 1) || (ord == 2 && i == 13) { // fixed positions
 			in := d.reqIn[(i/7)%len(d.reqIn)]
 			w, by := ref.Decide(rl.exp, &in)
 			d.r.Sample(map[string]any{"pipeline": "dns-request", "list_as_written": rl.prog.Text(), "lowered": loweredText, "question": in.String(), "expected": w, "by_rule": by})
@@ -779,7 +778,7 @@ func (d *dnsLeg) one(ord, i int, reqIdx, respIdx []int, viaText bool, withRouter
 		mm.flush(d.f)
 		_, changed := d.classify(d.pResp, pl, written, lowered, len(d.respIn), nRule)
 		d.pResp.outcomes.add(local)
-		if changed && i%397 == 11 && d.pResp.samples.Add(1) <= 2 {
+		if _ = changed; (ord == 1 && i == 1) || (ord == 2 && i == 10) { // fixed positions
 			in := d.respRef[(i/5)%len(d.respRef)]
 			w, by := ref.Decide(pl.exp, &in)
 			d.r.Sample(map[string]any{"pipeline": "dns-response", "list_as_written": pl.prog.Text(), "lowered": loweredText, "input": in.String(), "expected": w, "by_rule": by})
